@@ -111,7 +111,7 @@ fn steps(form: usize) {
         expect(&w, JsonPath { paths: vec![Path::Root, field, Path::ArrayIndices(vec![ArrayIndex::Index(Index::Index(v))])] });
     });
 }
-//@ props: C09
+//@ props: UNREACHED-C09
 //@ timeout: 1800
 //@ harness: c09_steps_dot, c09_steps_colon, c09_steps_dotq, c09_steps_colonq, c09_steps_bracket
 //@ desc: `$ <member step> [ i ]` with the member step written as `.name`, `:name`, `."name"`, `:"name"` and `["name"]` (two arbitrary name characters), the index two arbitrary digits with optional minus, and every presence pattern of four whitespace slots (each empty or one arbitrary whitespace character): accepted, steps in order, DotField/ColonField/ObjectField and Index(value)
@@ -147,7 +147,7 @@ fn indices(form: usize) {
         expect(&w, JsonPath { paths: vec![Path::Root, Path::ArrayIndices(want)] });
     });
 }
-//@ props: C09
+//@ props: UNREACHED-C09
 //@ timeout: 1800
 //@ harness: c09_index_last, c09_index_last_minus, c09_index_last_plus, c09_index_range, c09_index_list
 //@ desc: `$[last]`, `$[last - k]`, `$[last + k]`, `$[k to last]`, `$[k, last-1]` with `last` and `to` in every letter case, an arbitrary digit k and every presence pattern of three whitespace slots: accepted as LastIndex(0) / LastIndex(-k) / LastIndex(k) / Slice(Index(k), LastIndex(0)) / [Index(k), LastIndex(-1)]
@@ -218,7 +218,7 @@ fn filters(lit: usize) {
         o += 1;
     }
 }
-//@ props: C09
+//@ props: UNREACHED-C09
 //@ timeout: 1800
 //@ harness: c09_filter_uint, c09_filter_negint, c09_filter_frac, c09_filter_negexp, c09_filter_exp, c09_filter_str, c09_filter_emptystr, c09_filter_true, c09_filter_false, c09_filter_null
 //@ desc: `$[*] ?( @.a OP lit )` for the seven operator spellings (==, !=, <>, <, <=, >, >=), three whitespace slots, and literals 10, -3, 1.5, -2.5e3, 1e3, "ab", "" (empty string), true, false, null: accepted with the intended operator and a literal of the right kind and value (UInt64 / Int64 / Float64 / String / Boolean / Null)
@@ -239,7 +239,7 @@ harness!(c09_filter_null, 70, filters(9));
 fn cmp1(f: &'static str, v: u64) -> Box<Expr<'static>> {
     Box::new(bin(BinaryOperator::Eq, at_field(f), num(Number::UInt64(v))))
 }
-//@ props: C09
+//@ props: UNREACHED-C09
 //@ timeout: 1800
 //@ desc: operator precedence and grouping, and printing: `$?(@.a == 1 || @.b == 2 && @.c == 3)` is Or(a, And(b, c)); `$?((@.a == 1 || @.b == 2) && @.c == 3)` is And(Or(a, b), c); `$?(@.a == 1 && (@.b == 2 && @.c == 3))` keeps the explicit right grouping; `exists(@.a)`, the stand-alone predicate `$.a > 1`, `$.*` and `$[ * ]`; each accepted path is printed and the printout parses back to the same structure
 //@ fns: parse_json_path, expr_or, expr_and, expr_atom, exists, predicate, JsonPath::fmt (Display), Expr::fmt, Path::fmt
@@ -293,7 +293,7 @@ fn total<const N: usize>() {
         l += 1;
     }
 }
-//@ props: C09
+//@ props: UNREACHED-C09
 //@ timeout: 1800
 //@ harness: c09_total_3
 //@ desc: parse_json_path on every byte string of length 0..=3: a path or Err(InvalidJsonPath), never a panic
@@ -301,7 +301,7 @@ fn total<const N: usize>() {
 //@ bounds: input length <= 3
 //@ stubs: drop_in_place -> no-op
 harness!(c09_total_3, 10, total::<3>());
-//@ props: C09
+//@ props: UNREACHED-C09
 //@ tier: thorough
 //@ timeout: 7200
 //@ harness: c09_total_5
@@ -335,7 +335,7 @@ fn open_escape_tail<const N: usize>(prefix: &[u8], keypath: bool) {
         l += 1;
     }
 }
-//@ props: C09, C16
+//@ props: UNREACHED-C09, UNREACHED-C16
 //@ timeout: 1800
 //@ harness: c09_cut_u, c09_cut_ubrace, c09_cut_quoted_u, c16_cut_u, c16_cut_ubrace
 //@ desc: escapes cut off at every point: `$.a\\u`, `$.a\\u{`, `$."\\u` (JSONPath) and `{a\\u`, `{a\\u{` (key path) followed by every tail of 0..=5 arbitrary bytes (so the input may end one hex digit short, without the closing brace, or with non-hex digits): an error or a value, never a panic
@@ -364,7 +364,7 @@ fn open_tail(which: usize) {
     kani::cover!(r.is_err(), "rejected");
     core::mem::forget(r);
 }
-//@ props: C09
+//@ props: UNREACHED-C09
 //@ timeout: 1800
 //@ harness: c09_open_dotq, c09_open_brq, c09_open_lit, c09_open_escape
 //@ desc: `$."`, `$["`, `$?(@=="` and `$.a\\` each followed by four arbitrary bytes (unterminated quotes, escapes cut off at every point, `\\u` with too few digits, `\\u{` without closing brace): an error or a path, never a panic
@@ -376,7 +376,7 @@ harness!(c09_open_brq, 16, open_tail(1));
 harness!(c09_open_lit, 16, open_tail(2));
 harness!(c09_open_escape, 16, open_tail(3));
 
-//@ props: C09
+//@ props: UNREACHED-C09
 //@ timeout: 300
 //@ expect: twin
 //@ desc: vacuity twin: every 2-byte input claimed to be rejected — must be refuted
